@@ -14,35 +14,58 @@ import FV.Model.Glb
                  definitions `1/area_m · Σ_c area_c·cx_c·a[m][c] == x[m]` (y alike); per movable hard module the centre
                  offset to its first rectangle, `a[m][c] == Σ_r a[m_r][c]` per cell, and the pairwise rigid offsets of
                  its rectangles (squared when the module may flip).
-                 NOT MODELLED (present as body-less `stub` rows so that a missing / extra call is still seen): the
-                 dispersion equations (`disp`), the centre equations of nets with more than two pins (`hyper`) and
-                 every `g.Minimize(...)` term of the objective (`minimize`); initial values of variables; the anonymous
-                 variables GEKKO creates for hyperedges and inside `g.sum`.
+                 the dispersion equations `6/area_m^(3/2) · Σ_c area_c·a[m][c]·((x[m]-cx_c)² + (y[m]-cy_c)²) == d[m]` of the soft
+                 modules and `12/(w³+h³) · Σ_c area_c·a[m_r][c]·disp_r == d[m_r]` of every rectangle of a movable hard module
+                 (`disp_r` = the default dispersion function on the offsets, the shorter side's offset stretched by the
+                 aspect ratio); for every net with other than two pins the anonymous centre variables `ex, ey` (`lb=0`)
+                 and their defining equations `Σ_pins x[p] / n == ex` (y alike);
+    * objective terms (`Row.obj`, the `g.Minimize(...)` calls, in posting order): per two-pin net
+                 `alpha·w·((x0-x1)² + (y0-y1)²)/2`, per pin of a larger net `alpha·w·((ex-x[p])² + (ey-y[p])²)`, and
+                 `(1-alpha)·Σ d` at the end.
+                 NOT MODELLED: initial values of variables (`value=`); the helper variables GEKKO creates inside `g.sum`;
+                 dispersion functions other than the default `x² + y²` (the only one `glbfloor`'s command line uses).
 
   Python's constant folding is followed: `cells[c].area * model.a[m][c]` is a number when the ratio is frozen and the
-  GEKKO expression `((area)*(a_m_c))` otherwise.  The "model modules" (`modules` in the Python: soft and fixed modules,
+  GEKKO expression `((area)*(a_m_c))` otherwise; `alpha * e.weight`, `6 / area**(3/2)`, `12 / (w**3 + h**3)`, `h / w`,
+  `1 - alpha` are numbers before GEKKO sees them; a two-pin net between two fixed modules contributes a plain number.
+  Python's float power (`**` with a float left operand) is the parameter `Input.powF` (`Float.pow` when executed).  The "model modules" (`modules` in the Python: soft and fixed modules,
   movable hard ones replaced by one fake module per rectangle) are `Glb.modelModules`; constants vs variables are
   `Glb.aIsConst` / `Glb.getA`.  Terminals are not supported by `glbfloor` (its initial allocation rejects them).
 -/
 namespace FV.GlbOpt
 open FV FV.Glb
 
-/-- GEKKO variables of the model, by role. -/
+/-- GEKKO variables of the model, by role (`ex e`, `ey e`: the anonymous centre variables of net number `e`). -/
 inductive V
   | a (m : String) (c : Nat)
   | x (m : String)
   | y (m : String)
   | d (m : String)
+  | ex (e : Nat)
+  | ey (e : Nat)
   deriving DecidableEq, Repr
 
-/-- an element of a `g.sum([...])`: a number, a variable, or `((k)*(v))`. -/
+/-- a general scalar GEKKO expression (fully parenthesised infix in GEKKO's printing): numbers, variables,
+    `(a+b)`, `(a-b)`, `((a)*(b))`, `((a)/(b))`, `((a)^(2))`. -/
+inductive X (α : Type)
+  | num (v : α)
+  | var (v : V)
+  | add (a b : X α)
+  | sub (a b : X α)
+  | mul (a b : X α)
+  | div (a b : X α)
+  | sq (a : X α)
+  deriving Repr
+
+/-- an element of a `g.sum([...])`: a number, a variable, `((k)*(v))`, or a general expression. -/
 inductive T (α : Type)
   | num (v : α)
   | var (v : V)
   | lin (k : α) (v : V)
+  | gen (e : X α)
   deriving Repr
 
-/-- the expression shapes `optimize_allocation` posts (no recursion needed). -/
+/-- the expression shapes `optimize_allocation` posts (no recursion through sums needed). -/
 inductive E (α : Type)
   | num (v : α)
   | var (v : V)
@@ -50,14 +73,16 @@ inductive E (α : Type)
   | scaled (k : α) (l : List (T α))     -- ((k)*(g.sum([...])))
   | diff (p q : V)                      -- (p-q)
   | sqdiff (p q : V)                    -- ((p-q))^(2)
+  | sumDiv (l : List (T α)) (n : α)     -- ((g.sum([...]))/(n))
+  | gen (e : X α)                       -- anything without a sum
   deriving Repr
 
 inductive Cmp | le | ge | eq
   deriving DecidableEq, Repr
 
 inductive Row (α : Type)
-  | eqn (name : String) (lhs : E α) (cmp : Cmp) (rhs : E α)
-  | stub (kind : String) (who : String)
+  | eqn (name : String) (lhs : E α) (cmp : Cmp) (rhs : E α)     -- g.Equation(lhs cmp rhs)
+  | obj (name : String) (e : E α)                                -- g.Minimize(e)
   deriving Repr
 
 structure Posted (α : Type) where
@@ -70,10 +95,12 @@ structure Input (α : Type) where
   die : Rect α
   epsD : α
   thr : α
+  alpha : α
   offered : List (RectAlloc α)
   mods : List (Module α)
-  areaOf : String → α        -- `module.area()` of the soft and fixed modules (by name)
-  edgeSizes : List Nat       -- number of pins of every net, in order
+  areaOf : String → α                    -- `module.area()` of the soft and fixed modules (by name)
+  edges : List (α × List String)         -- the nets in order: weight, names of the pins
+  powF : α → α → α                       -- Python `float ** number`
 
 variable {α : Type} [Add α] [Sub α] [Mul α] [Div α] [Neg α] [LT α] [LE α]
   [DecidableLT α] [DecidableLE α] [NatCast α] [DecidableEq α]
@@ -124,7 +151,11 @@ def varsOf (inp : Input α) : List (V × Option α × Option α) :=
     | some _ => none
     | none => some (.a m.name c, some Glb.zero, some Glb.one)) ++
   ((inp.mods.filter movable).flatMap fun m =>
-    xyVars inp m.name ++ (cellIdx inp).map fun c => (.a m.name c, some Glb.zero, some Glb.one))
+    xyVars inp m.name ++ (cellIdx inp).map fun c => (.a m.name c, some Glb.zero, some Glb.one)) ++
+  (inp.edges.zipIdx.flatMap fun (ed, e) =>
+    match ed.2 with
+    | [_, _] => []
+    | _ => [(V.ex e, some Glb.zero, none), (V.ey e, some Glb.zero, none)])
 
 def constsOf (inp : Input α) : List (V × α) :=
   let mm := modelModules inp.mods
@@ -142,25 +173,67 @@ def capacityRows (inp : Input α) : List (Row α) :=
   (cellIdx inp).map fun c =>
     .eqn s!"cap_{c}" (.sum ((modelModules inp.mods).map fun m => aTerm inp m c)) .le (.num Glb.one)
 
+/-! ### dispersion -/
+
+/-- the default `dispersion_function`: `x**2 + y**2`. -/
+def dispF (x y : X α) : X α := .add (.sq x) (.sq y)
+
+/-- `cells[c].area * model.a[mm][c] * D` (the first product is a number when the ratio is a float). -/
+def dispTerm (inp : Input α) (mm : Module α) (c : Nat) (D : X α) : T α :=
+  match constA inp mm c with
+  | some v => .gen (.mul (.num (cellArea inp c * v)) D)
+  | none => .gen (.mul (.mul (.num (cellArea inp c)) (.var (.a mm.name c))) D)
+
+/-- `model.x[m]` / `model.y[m]` of a model module inside an expression. -/
+def xX (m : Module α) : X α := if m.fixed then .num m.cx else .var (.x m.name)
+def yX (m : Module α) : X α := if m.fixed then .num m.cy else .var (.y m.name)
+
+/-- `6 / module.area()**(3 / 2) * g.sum([cells[c].area * model.a[m][c] * dispersion_function(model.x[m] - cells[c].center.x,
+    model.y[m] - cells[c].center.y) for c in range(n_cells)]) == model.d[m]` (soft modules). -/
+def softDispRow (inp : Input α) (m : Module α) : Row α :=
+  let k := ((6 : Nat) : α) / inp.powF (mmArea inp m) (((3 : Nat) : α) / ((2 : Nat) : α))
+  .eqn s!"disp_{m.name}"
+    (.scaled k ((cellIdx inp).map fun c =>
+      dispTerm inp m c (dispF (.sub (xX m) (.num (cellCx inp c))) (.sub (yX m) (.num (cellCy inp c))))))
+    .eq (.var (.d m.name))
+
+/-- the dispersion equation of rectangle `i` (`rect`, shape `w × h`) of the movable hard module `m`:
+    `12 / (w**3 + h**3) * g.sum([cells[c].area * model.a[mr][c] * (dispersion_function(h / w * (x - cx), y - cy) if w < h
+    else dispersion_function(x - cx, w / h * (y - cy))) for c …]) == model.d[mr]`. -/
+def hardDispRow (inp : Input α) (m : Module α) (i : Nat) (rect : Rect α) : Row α :=
+  let w := rect.w
+  let h := rect.h
+  let three : α := ((3 : Nat) : α)
+  let k := ((12 : Nat) : α) / (inp.powF w three + inp.powF h three)
+  let f := fakeModule m i rect
+  let xv : X α := .var (.x f.name)
+  let yv : X α := .var (.y f.name)
+  .eqn s!"disp_{f.name}"
+    (.scaled k ((cellIdx inp).map fun c =>
+      let dx : X α := .sub xv (.num (cellCx inp c))
+      let dy : X α := .sub yv (.num (cellCy inp c))
+      dispTerm inp f c (if w < h then dispF (.mul (.num (h / w)) dx) dy else dispF dx (.mul (.num (w / h)) dy))))
+    .eq (.var (.d f.name))
+
 def moduleRows (inp : Input α) (m : Module α) : List (Row α) :=
   let area := mmArea inp m
   let k := Glb.one / area
   [ .eqn s!"area_{m.name}" (.sum ((cellIdx inp).map fun c => kaTerm inp (cellArea inp c) m c)) .ge (.num area),
     .eqn s!"cx_{m.name}" (.scaled k ((cellIdx inp).map fun c => kaTerm inp (cellArea inp c * cellCx inp c) m c)) .eq (xRhs m),
     .eqn s!"cy_{m.name}" (.scaled k ((cellIdx inp).map fun c => kaTerm inp (cellArea inp c * cellCy inp c) m c)) .eq (yRhs m) ] ++
-  (if m.hard then [] else [.stub "disp" m.name])
+  (if m.hard then [] else [softDispRow inp m])
 
 /-- offset equation between two variables: linear, or squared when the module may flip. -/
 def offsetRow (name : String) (flip : Bool) (p q : V) (delta : α) : Row α :=
   if flip then .eqn name (.sqdiff p q) .eq (.num (delta * delta)) else .eqn name (.diff p q) .eq (.num delta)
 
-def pairRows (m : Module α) : List (Row α) :=
+def pairRows (inp : Input α) (m : Module α) : List (Row α) :=
   m.rects.zipIdx.flatMap fun (r, i) =>
     (m.rects.zipIdx.flatMap fun (r', j) =>
       if i < j then
         [ offsetRow s!"px_{m.name}_{i}_{j}" m.flip (.x (subName m.name i)) (.x (subName m.name j)) (r.cx - r'.cx),
           offsetRow s!"py_{m.name}_{i}_{j}" m.flip (.y (subName m.name i)) (.y (subName m.name j)) (r.cy - r'.cy) ]
-      else []) ++ [.stub "disp" (subName m.name i)]
+      else []) ++ [hardDispRow inp m i r]
 
 def hardRows (inp : Input α) (m : Module α) : List (Row α) :=
   let r0cx := match m.rects with | r :: _ => r.cx | [] => Glb.zero
@@ -169,18 +242,63 @@ def hardRows (inp : Input α) (m : Module α) : List (Row α) :=
     offsetRow s!"oy_{m.name}" m.flip (.y m.name) (.y (subName m.name 0)) (m.cy - r0cy) ] ++
   ((cellIdx inp).map fun c =>
     .eqn s!"hsum_{m.name}_{c}" (.var (.a m.name c)) .eq (.sum ((fakes m).map fun f => aTerm inp f c))) ++
-  pairRows m
+  pairRows inp m
 
-def edgeRows (n : Nat) : List (Row α) :=
-  if n = 2 then [.stub "minimize" "edge"]
-  else [.stub "hyper" "x", .stub "hyper" "y"] ++ (List.replicate n (.stub "minimize" "hyper"))
+/-- a net pin that is a fixed module: its centre (`model.x[name]`, `model.y[name]` are floats). -/
+def pinFixed (inp : Input α) (n : String) : Option (α × α) :=
+  match inp.mods.find? (fun m => m.name == n) with
+  | some m => if m.fixed then some (m.cx, m.cy) else none
+  | none => none
+
+/-- the pin `model.x[name]` / `model.y[name]` of a net: the float of a fixed module, otherwise the variable
+    (names of nets are names of netlist modules: guaranteed by `Netlist`). -/
+def pinX (inp : Input α) (n : String) : X α :=
+  match pinFixed inp n with
+  | some c => .num c.1
+  | none => .var (.x n)
+def pinY (inp : Input α) (n : String) : X α :=
+  match pinFixed inp n with
+  | some c => .num c.2
+  | none => .var (.y n)
+
+def asT : X α → T α
+  | .num v => .num v
+  | .var v => .var v
+  | e => .gen e
+
+/-- `alpha * e.weight * ((x0 - x1)**2 + (y0 - y1)**2) / 2`; a plain number when both pins are fixed modules. -/
+def twoPinTerm (inp : Input α) (w : α) (p q : String) : E α :=
+  let k := inp.alpha * w
+  match pinFixed inp p, pinFixed inp q with
+  | some c0, some c1 =>
+    .num (k * ((c0.1 - c1.1) * (c0.1 - c1.1) + (c0.2 - c1.2) * (c0.2 - c1.2)) / ((2 : Nat) : α))
+  | _, _ =>
+    .gen (.div (.mul (.num k) (.add (.sq (.sub (pinX inp p) (pinX inp q))) (.sq (.sub (pinY inp p) (pinY inp q)))))
+      (.num ((2 : Nat) : α)))
+
+/-- the rows of net number `e` (`weight`, `pins`): one objective term for a two-pin net; otherwise the two centre
+    equations and one objective term per pin. -/
+def edgeRows (inp : Input α) (e : Nat) (w : α) (pins : List String) : List (Row α) :=
+  match pins with
+  | [p, q] => [.obj s!"net_{e}" (twoPinTerm inp w p q)]
+  | _ =>
+    let n : α := ((pins.length : Nat) : α)
+    [ .eqn s!"hx_{e}" (.sumDiv (pins.map fun p => asT (pinX inp p)) n) .eq (.var (.ex e)),
+      .eqn s!"hy_{e}" (.sumDiv (pins.map fun p => asT (pinY inp p)) n) .eq (.var (.ey e)) ] ++
+    pins.map fun p =>
+      .obj s!"net_{e}_{p}" (.gen (.mul (.num (inp.alpha * w))
+        (.add (.sq (.sub (.var (.ex e)) (pinX inp p))) (.sq (.sub (.var (.ey e)) (pinY inp p))))))
+
+/-- `model.d.values()`: the dispersion variables, in creation order. -/
+def dVars (inp : Input α) : List V :=
+  ((modelModules inp.mods).filter fun m => !m.fixed).map fun m => V.d m.name
 
 def rowsOf (inp : Input α) : List (Row α) :=
   capacityRows inp ++
   ((modelModules inp.mods).flatMap fun m => moduleRows inp m) ++
   ((inp.mods.filter movable).flatMap fun m => hardRows inp m) ++
-  (inp.edgeSizes.flatMap fun n => edgeRows n) ++
-  [.stub "minimize" "dispersion"]
+  (inp.edges.zipIdx.flatMap fun (ed, e) => edgeRows inp e ed.1 ed.2) ++
+  [.obj "dispersion" (.scaled (Glb.one - inp.alpha) ((dVars inp).map fun v => .var v))]
 
 /-- everything `optimize_allocation` posts. -/
 def post (inp : Input α) : Posted α := ⟨varsOf inp, constsOf inp, rowsOf inp⟩
@@ -191,10 +309,20 @@ def lsum : List α → α
   | [] => Glb.zero
   | x :: xs => x + lsum xs
 
+def evalX (σ : V → α) : X α → α
+  | .num v => v
+  | .var v => σ v
+  | .add a b => evalX σ a + evalX σ b
+  | .sub a b => evalX σ a - evalX σ b
+  | .mul a b => evalX σ a * evalX σ b
+  | .div a b => evalX σ a / evalX σ b
+  | .sq a => evalX σ a * evalX σ a
+
 def evalT (σ : V → α) : T α → α
   | .num v => v
   | .var v => σ v
   | .lin k v => k * σ v
+  | .gen e => evalX σ e
 
 def evalE (σ : V → α) : E α → α
   | .num v => v
@@ -203,10 +331,12 @@ def evalE (σ : V → α) : E α → α
   | .scaled k l => k * lsum (l.map (evalT σ))
   | .diff p q => σ p - σ q
   | .sqdiff p q => (σ p - σ q) * (σ p - σ q)
+  | .sumDiv l n => lsum (l.map (evalT σ)) / n
+  | .gen e => evalX σ e
 
 /-- residual of a row under an assignment: how far it is from being satisfied (0 = satisfied). -/
 def residual (σ : V → α) : Row α → α
-  | .stub _ _ => Glb.zero
+  | .obj _ _ => Glb.zero
   | .eqn _ l cmp r =>
     let a := evalE σ l
     let b := evalE σ r
@@ -214,5 +344,9 @@ def residual (σ : V → α) : Row α → α
     | .le => if b < a then a - b else Glb.zero
     | .ge => if a < b then b - a else Glb.zero
     | .eq => if a < b then b - a else a - b
+
+/-- the objective GEKKO minimises: the sum of the `g.Minimize` terms. -/
+def objective (σ : V → α) (p : Posted α) : α :=
+  lsum (p.rows.filterMap fun r => match r with | .obj _ e => some (evalE σ e) | .eqn .. => none)
 
 end FV.GlbOpt
